@@ -31,6 +31,8 @@ CASES = {
     'arc':        ('G12', None, 'none', '9'),
     'helix':      ('G13', None, 'imp', '9'),
     'skin':       ('G2', None, 'skin', '9'),
+    'taper-skin': ('G11', None, 'skin', '9'),      # distributed load on unequal segments: every pulse has its own value
+    'taper-coat': ('G11', None, 'coat', '12'),
     'wire+arc-fuzzy': ('W+A', None, 'imp', '9'),
 }
 
@@ -87,6 +89,12 @@ def _build(M, case, P):
             m.register_load(ld, None, w.tag)
             loads.append(ld)
         m.fix_distributed_loads()
+    elif lk == 'coat':
+        for w in m.geo:
+            ld = M.Insulation_Load(w, 0.005, 3.0, all_wires=True)      # concrete coating: the equivalent radius is written as a wire radius
+            m.register_load(ld, None, w.tag)
+            loads.append(ld)
+        m.fix_distributed_loads()
     return m, srcs, sp, loads
 
 
@@ -134,7 +142,7 @@ def basic_input(ck, sh, mm, case):
             except PromptError as e:
                 model, err = None, str(e)
             loadz = []
-            if lk in ('imp', 'skin') and model is not None:
+            if lk in ('imp', 'skin', 'coat') and model is not None:
                 for ld in loads:
                     for p in ld.pulses:
                         loadz.append((p.idx + 1, ld.impedance(P['f'], p)))
@@ -178,7 +186,7 @@ def basic_input(ck, sh, mm, case):
         g.append(('sources: pulse, magnitude, phase (degrees) give back the voltage', z3.And(*ok)))
         # loads
         gname_, mk_, lk_, ver_ = CASES[case]
-        if lk_ in ('imp', 'skin'):
+        if lk_ in ('imp', 'skin', 'coat'):
             ok = [z3.BoolVal(len(rd['loads']) == len(o['loadz']))]
             for (kind, pn, R, X), (wpn, z) in zip(rd['loads'], o['loadz']):
                 ok += [z3.BoolVal(kind == 'impedance' and pn == wpn), eq_term(SC(R, X), z)]
@@ -196,7 +204,7 @@ def basic_input(ck, sh, mm, case):
 
     def replay(c, gname_, out):
         return replay_basic(mm, case, _conc_params(c))
-    prove_paths(ck, 'basic-%s' % case, fn, goals, replay, max_paths=64, sqrt_mode='uf-free' if lk == 'skin' else 'fresh', expect_exc=(ExpectedRefusal,),
+    prove_paths(ck, 'basic-%s' % case, fn, goals, replay, max_paths=64, sqrt_mode='uf-free' if lk in ('skin', 'coat') else 'fresh', expect_exc=(ExpectedRefusal,),
                 timeout_ms=10000 if ck.tier == 'quick' else 60000)
     ck.bounds.setdefault('cases', []).append('%s: %s' % (case, CASES[case]))
 
@@ -265,7 +273,7 @@ def replay_basic(mm, case, P):
             return ('C18:source:phase-units' if abs(mag - abs(s_.voltage)) <= 1e-5 * abs(s_.voltage) else 'C18:source',
                     'source on pulse %d with voltage %r is written as "%d, %g, %g" which BASIC MININEC reads as %r'
                     % (k + 1, s_.voltage, pn, mag, ph, v), rd_args)
-    if lk in ('imp', 'skin'):
+    if lk in ('imp', 'skin', 'coat'):
         want = [(p.idx + 1, ld.impedance(P['f'], p)) for ld in loads for p in ld.pulses]
         if len(want) != len(rd['loads']):
             return ('C18:loads:count', '%d load lines for %d loaded pulses' % (len(rd['loads']), len(want)), rd_args)
@@ -301,7 +309,7 @@ def replay_basic(mm, case, P):
 def main(args):
     ck = Check('C18', args)
     ck.shadow_stats = symx.load().stats
-    names = ['free-imp', 'gnd-ideal', 'lap-v9', 'lap-v12', 'media2', 'taper', 'arc', 'wire+arc-fuzzy'] if ck.tier == 'quick' else list(CASES)
+    names = ['free-imp', 'gnd-ideal', 'lap-v9', 'lap-v12', 'media2', 'taper', 'arc', 'wire+arc-fuzzy', 'taper-skin', 'taper-coat'] if ck.tier == 'quick' else list(CASES)
     run_parallel(ck, 'checks.c18', [('basic_input', (n,)) for n in names])
     ck.assumptions += ['%g/%.12g conversions read back exactly in this check (their 6-digit precision is what "to the precision of the '
                        'printed parameters" allows; the check is about units, order and content)',
